@@ -1,5 +1,6 @@
 (* C03 - register banks update only at the clock edge, honouring stall and bubble. *)
 From HclV Require Import Base Expr Machine MachineSpec MachineProofs.
+From HclV Require HistorySpec HistoryProofs.
 Open Scope string_scope.
 Open Scope N_scope.
 
@@ -44,3 +45,15 @@ Theorem C03_clock_edge :
     (forall k, ~ In k (all_outs banks) -> lookup vals' k = lookup vals k).
 Proof. exact clock_edge_ok. Qed.
 Print Assumptions C03_clock_edge.
+
+(* ---- over whole runs of an accepted program (HistorySpec.v / HistoryProofs.v) ------------------ *)
+(* every bank register holds its default in cycle 0, does not change during a cycle, and after each
+   clock edge holds its default (bubble), its old value (stall, no bubble) or its input's value;
+   each bank depends only on its own stall and bubble *)
+Theorem C03_bank_history : HistorySpec.stmt_bank_history.
+Proof. exact HistoryProofs.bank_history_holds. Qed.
+Print Assumptions C03_bank_history.
+(* the hypotheses hold for every program Program::new accepts, on every well-formed image *)
+Theorem C03_history_hypotheses_hold_for_accepted_programs : HistorySpec.stmt_accepted_run_of.
+Proof. exact HistoryProofs.accepted_run_of_holds. Qed.
+Print Assumptions C03_history_hypotheses_hold_for_accepted_programs.
